@@ -48,6 +48,10 @@ RULE = ("T3: one `script` case per generated class in the thorough tier (every 1
         "history (cache_hash, hash(x) / hash(y) taken before, fields re-assigned after hashing) x class configuration "
         "(api incl. make_class, slots, frozen, order, inherited split, hash=/unsafe_hash=); exhaustive over the "
         "per-field model dimensions for <=1 field (quick) / <=2 fields (thorough) under random class facts and "
+        "histories; random block: 80% classes of 1-4 fields, ~18% of every width 5..40, ~1.5% much wider (48/64/100/150 "
+        "fields; size thresholds of the generator), wide classes mostly-equal with self-unequal (NaN-like) values shared by "
+        "identity between the operands in one or two fields and more x-with-itself comparisons, every wide class also as a "
+        "T3 script case in both tiers; then "
         "histories, random above; only classes for which attrs generates equality are emitted; non-trivial = at "
         "least one eq-participating field; distinct = distinct JSON case")
 TRUSTED = [
@@ -79,7 +83,7 @@ ASSUMPTIONS = [
     "are outside the property and not generated",
 ]
 EXHAUSTIVE = {"quick": False, "thorough": False}
-BUDGET_S = {"quick": 35, "thorough": 420}
+BUDGET_S = {"quick": 35, "thorough": 400}
 
 OUTCOMES = ["T", "F", "truthy", "falsy"]
 ARGS4 = ["unset", "t", "f", "key"]
@@ -88,6 +92,7 @@ EQARGS = [("unset", e, o) for e in ARGS4 for o in ARGS4 if not (e == "f" and o i
          [(c, "unset", "unset") for c in ("t", "f", "key")]
 RHS = ["same", "identical", "sub", "super", "foreign"]
 NAMES = ["a", "b", "c", "d"]
+WIDE = [48, 64, 100, 150]
 BUILTIN_ROOTS = {"list": list, "dict": dict, "str": str, "float": float, "int": int, "tuple": tuple}
 PAYLOADS = {"list": ([1], [2]), "dict": ({1: 1}, {2: 2}), "str": ("p", "q"), "float": (1.5, 2.5), "int": (1, 2),
             "tuple": ((1,), (2,))}
@@ -235,18 +240,34 @@ def _mk_okey(field):
 
 # one eq key function and one order key function PER FIELD NAME (distinct objects doing the same), so that the
 # binding of every helper global of a generated method can be told apart (T3)
-KEY_FNS = {n: _mk_key(n) for n in NAMES}
-OKEY_FNS = {n: _mk_okey(n) for n in NAMES}
+class _PerName(dict):
+    """name -> its own function object, made on first use (classes may have any number of fields)"""
+
+    def __init__(self, mk):
+        super().__init__()
+        self._mk = mk
+
+    def __missing__(self, name):
+        fn = self[name] = self._mk(name)
+        return fn
+
+
+KEY_FNS = _PerName(_mk_key)
+OKEY_FNS = _PerName(_mk_okey)
+
+
+def field_name(i):
+    """a, b, c, d, f004, f005, ..."""
+    return NAMES[i] if i < len(NAMES) else f"f{i:03d}"
 
 
 def classify_helper(obj):
     """what a helper global of a generated method is bound to, in the IR's terms"""
-    for n, fn in KEY_FNS.items():
-        if obj is fn:
-            return {"eqKey": {"field": n}}
-    for n, fn in OKEY_FNS.items():
-        if obj is fn:
-            return {"orderKey": {"field": n}}
+    role, field = getattr(obj, "role", None), getattr(obj, "field", None)
+    if role == "eq" and isinstance(field, str) and KEY_FNS.get(field) is obj:
+        return {"eqKey": {"field": field}}
+    if role == "order" and isinstance(field, str) and OKEY_FNS.get(field) is obj:
+        return {"orderKey": {"field": field}}
     return "other"
 
 
@@ -296,7 +317,7 @@ def _field_kwargs(f, arg=None):
 
     def pick(table, a):
         v = table[a]
-        return v[f["name"]] if isinstance(v, dict) else v
+        return v[f["name"]] if isinstance(v, dict) else v      # _PerName makes the function on first use
     kw = {}
     if f["cmp"] != "unset":
         kw["cmp"] = pick(arg, f["cmp"])
@@ -981,7 +1002,8 @@ def gen_cases(tier, rng):
     every = 1 if tier == "thorough" else 12
     for i, c in enumerate(_gen_operand_cases(tier, rng)):
         yield c
-        if i % every == 0:
+        # wide classes always get their script case: a size threshold in the generator shows in the text at once
+        if i % every == 0 or len(c["fields"]) > len(NAMES):
             yield make_script_case(c)
 
 
@@ -1000,16 +1022,29 @@ def _gen_operand_cases(tier, rng):
     n = 60000 if tier == "quick" else 300000
     full = list(_field_space(reduced=False))
     for _ in range(n):
-        k = rng.choice([1, 2, 2, 3, 3, 4])
+        r = rng.random()
+        if r < 0.80:
+            k = rng.choice([1, 2, 2, 3, 3, 4])
+        elif r < 0.985:
+            k = rng.randint(5, 40)          # size thresholds: every width up to 40 ...
+        else:
+            k = rng.choice(WIDE)            # ... and a few much wider classes
+        wide = k > len(NAMES)
         fields = []
         for i in range(k):
-            f = dict(rng.choice(full), name=NAMES[i])
-            # bias towards truthy outcomes so that long chains (and equal instances) are exercised
-            if rng.random() < 0.6:
+            f = dict(rng.choice(full), name=field_name(i))
+            # bias towards truthy outcomes so that long chains (and equal instances) are exercised: the wider
+            # the class, the stronger
+            if rng.random() < (0.97 if wide else 0.6):
                 f["raw"] = rng.choice(["T", "truthy"])
                 f["keyed"] = rng.choice(["T", "truthy"])
             fields.append(f)
-        yield _case(rng, fields, rng.choice(RHS + ["same", "same"]))
+        if wide and rng.random() < 0.6:
+            # a self-unequal (NaN-like) value shared BY IDENTITY between the operands, in one or two fields
+            for f in rng.sample(fields, rng.choice([1, 1, 2])):
+                f.update(sameObj=True, raw=rng.choice(["F", "falsy"]), keyed=rng.choice(["F", "falsy"]))
+        rhs = rng.choice(RHS + ["same", "same"] + (["identical", "same"] if wide else []))
+        yield _case(rng, fields, rhs)
 
 
 BASE_CFG = {"api": "attr.s", "slots": None, "frozen": False, "cls_eq": "unset", "cls_order": "unset",
@@ -1074,6 +1109,16 @@ def neighbours(case, rng):
                 fs.append(g)
             rhs = rng.choice(RHS + ["same", "same", "same"])
             yield from _emit(dict(base, fields=fs, rhs=rhs, hist=dict(BASE_HIST)))
+        # all fields equal but one self-unequal value, shared by identity / x compared with itself; one falsy field
+        n = len(base["fields"])
+        plain = [dict(_dress(rng, dict(f, raw="T", keyed="T", sameObj=False)), hash=f.get("hash", "unset"),
+                      unhashable=False, fault="none") for f in base["fields"]]
+        for i in sorted({0, n // 2, n - 1} | set(rng.sample(range(n), min(n, 3)))) if n else []:
+            for same_obj, rhs, out in ((True, "same", "F"), (True, "identical", "F"), (False, "same", "falsy"),
+                                       (False, "identical", "truthy")):
+                fs = [dict(f) for f in plain]
+                fs[i].update(sameObj=same_obj, raw=out, keyed=out, hashDiffers=False, reprEq=True)
+                yield from _emit(dict(base, fields=fs, rhs=rhs, hist=dict(BASE_HIST)))
         return
     base = _strip(case)
     for rhs in RHS:
